@@ -31,8 +31,14 @@ def clean():
 
 def suite():
     junit = '/tmp/seedeval_junit.xml'
-    sh([PY, '-m', 'pytest', '-q', '-p', 'no:cacheprovider', '--timeout=900', '--continue-on-collection-errors',
-        '--junitxml=' + junit], cwd=WT, env={'PYTHONPATH': WT}, timeout=1800)
+    if os.path.exists(junit):
+        os.remove(junit)
+    # own network namespace: the RT tests bind fixed UDP ports, other jobs on this machine may hold them
+    cmd = "ip link set lo up; exec %s -m pytest -q -p no:cacheprovider --timeout=900 --continue-on-collection-errors --junitxml=%s" % (PY, junit)
+    rc, o = sh(['unshare', '-rn', 'sh', '-c', cmd], cwd=WT, env={'PYTHONPATH': WT}, timeout=1800)
+    if not os.path.exists(junit):
+        sh([PY, '-m', 'pytest', '-q', '-p', 'no:cacheprovider', '--timeout=900', '--continue-on-collection-errors',
+            '--junitxml=' + junit], cwd=WT, env={'PYTHONPATH': WT}, timeout=1800)
     base = json.load(open('/root/.vp/BASELINE.json'))['stable_pass']
     res = {}
     for tc in ET.parse(junit).iter('testcase'):
